@@ -23,7 +23,24 @@ def _boom(*a: Any, **k: Any) -> Any:
     raise CallbackTrouble('scripted callback failure')
 
 
+REENTER_TARGET: List[Any] = [None]   # (endpoint, method) of the patch whose callback is re-entering
+REENTER_HOOK: List[Any] = [None]     # set by the scenario: performs the nested real call, returns its outcome
+_DEPTH = [0]
+
+
+def _reenter(*a: Any, **k: Any) -> Any:
+    """A callback that itself calls the same endpoint and method through the same client (once, not recursively)."""
+    if _DEPTH[0] >= 1 or REENTER_HOOK[0] is None:
+        return 'leaf'
+    _DEPTH[0] += 1
+    try:
+        return ['reentered', REENTER_HOOK[0]()]
+    finally:
+        _DEPTH[0] -= 1
+
+
 CALLBACKS = {
+    'reenter': _reenter,
     'boom': _boom,
     'sum': lambda *a, **k: sum(v for v in list(a) + list(k.values()) if isinstance(v, (int, float)) and not isinstance(v, bool)),
     'count': lambda *a, **k: len(a) + len(k),
@@ -37,6 +54,8 @@ class MockerModel:
         self.patches: Dict[str, Dict[str, List[Patch]]] = {}
         self.calls: Dict[str, Dict[str, List[Tuple[Tuple[Any, ...], Dict[str, Any]]]]] = {}
         self.serial = 0
+        self._depth = 0
+        self.reentrant = False    # True where the real side can perform the nested call (synchronous transport)
 
     # -- configuration -----------------------------------------------------------------------------------------
     def add(self, endpoint: str, method: str, kind: str, value: Any, once: bool) -> None:
@@ -60,6 +79,15 @@ class MockerModel:
             del self.patches[endpoint][method]
             if not self.patches[endpoint]:
                 del self.patches[endpoint]
+
+    @staticmethod
+    def describe_nested(exp: Dict[str, Any]) -> Any:
+        """What the nested call yields, in the form the real re-entering callback reports it."""
+        if exp['kind'] in ('refused', 'passthrough', 'callback_raises'):
+            return exp['kind']
+        if 'error' in exp:
+            return ['error', exp['error'][0]]
+        return ['result', exp['result']]
 
     # -- serving ----------------------------------------------------------------------------------------------------
     def serve(self, endpoint: str, method: str, params: Any, rid: Any) -> Dict[str, Any]:
@@ -85,4 +113,13 @@ class MockerModel:
             return {'kind': 'reply', 'id': rid, 'error': head.value, 'patch': head.serial}
         if head.value == 'boom':
             return {'kind': 'callback_raises', 'patch': head.serial}
+        if head.value == 'reenter':
+            if self._depth >= 1 or not self.reentrant:
+                return {'kind': 'reply', 'id': rid, 'result': 'leaf', 'patch': head.serial}
+            self._depth += 1
+            try:
+                nested = self.serve(endpoint, method, ['nested'], 'nested-id')
+            finally:
+                self._depth -= 1
+            return {'kind': 'reply', 'id': rid, 'result': ['reentered', self.describe_nested(nested)], 'patch': head.serial}
         return {'kind': 'reply', 'id': rid, 'result': CALLBACKS[head.value](*args, **kwargs), 'patch': head.serial}
